@@ -81,8 +81,8 @@ void SusceptibilityPart::compute(void)
                 ++Binner;  // The next non-zero element
             }else{
                 // Chasing: one index runs down the other index
-                if(B_index2 < A_index2) for(;QuantumState(Binner.index())<A_index2; ++Binner);
-                else for(;QuantumState(Ainner.index())<B_index2; ++Ainner);
+                if(B_index2 < A_index2) for(;Binner && QuantumState(Binner.index())<A_index2; ++Binner);
+                else for(;Ainner && QuantumState(Ainner.index())<B_index2; ++Ainner);
             }
         }
     }
